@@ -308,16 +308,26 @@ def phase_checks_all(jobs):
     res = json.loads(respath.read_text())
     todo = [k for k, r in res.items() if not r["caught_by"] and not log_only(r) and not r.get("all_checks_run")]
     roots = make_copies(jobs)
-    every = [f"C{i:02d}" for i in range(1, 21)]
+    # the checks that can see a change in the file at all (anchored ones first: they may have been strengthened since the first pass)
+    AREA = {"_cli/": "C04 C12 C15 C18 C20 C14 C17 C19", "_numpy_utils": "C01 C09 C10 C02 C14 C03 C08 C19 C04",
+            "predicates/": "C01 C09 C10 C11 C04 C19", "_field_": "C11 C03 C04 C15 C14 C20", "_matching": "C11 C12 C14",
+            "_common.py": "C01 C09 C04", "_format": "C11 C04 C20", "io/": "C05 C13 C06 C07 C15 C18 C12 C04 C19",
+            "mesh/": "C02 C03 C08 C16 C17 C06 C07 C14 C19 C13 C04", "tabular/": "C14 C13 C11 C04"}
+
+    def checks_for(m):
+        for key, val in AREA.items():
+            if key in m["file"]:
+                rest = [c for c in val.split() if c not in m["properties"]]
+                return list(m["properties"]) + rest
+        return list(m["properties"])
 
     def one(root, k):
         m = allm[int(k)]
         r = dict(res[k])
         apply_mutant(root, m)
         try:
-            for c in every:
-                if c in m["properties"]:
-                    continue
+            r["checks"] = []
+            for c in checks_for(m):
                 rc, out = sh(f"./check {c} quick", cwd=VERIF, timeout=1500,
                              env={"VERIF_REPO": str(root), "VERIF_EVIDENCE_DIR": str(root / "_evid")})
                 nv = sum(1 for ln in out.splitlines() if ln.startswith("VIOLATION"))
